@@ -117,12 +117,42 @@ class Impl:
             return ("raise", common.exn_name(ex))
 
 
+class _Hang(Exception):
+    """an implementation call did not return (the property demands termination)"""
+
+
+def _guarded(fn, *args, limit=3.0):
+    """Run one implementation call under a wall-clock limit (SIGALRM, main thread only): an iterator that
+    never returns must become an observation, not a hung check."""
+    import signal
+    import threading
+    if threading.current_thread() is not threading.main_thread():
+        return fn(*args)
+
+    def on_alarm(signum, frame):
+        raise _Hang()
+    old = signal.signal(signal.SIGALRM, on_alarm)
+    signal.setitimer(signal.ITIMER_REAL, limit)
+    try:
+        return fn(*args)
+    finally:
+        signal.setitimer(signal.ITIMER_REAL, 0)
+        signal.signal(signal.SIGALRM, old)
+
+
 def run_impl(sched: dict) -> list[dict]:
     im = Impl(sched["kind"], sched["init"], sched.get("deps"), sched.get("universe", 8))
     out = []
     for e in sched["events"]:
-        r = im.do(e)
-        f, b, n = im.snapshot()
+        try:
+            r = _guarded(im.do, e)
+            f, b, n = _guarded(im.snapshot)
+        except _Hang:
+            out.append({"res": ["raise", "Hang"], "fwd": [], "bwd": [], "len": -1})
+            break           # the structure cannot be observed any further
+        except Exception as ex:  # noqa: BLE001  (snapshot itself failed: list()/len() raised)
+            out.append({"res": ["raise", "Observer" + common.exn_name(ex)], "fwd": [], "bwd": [], "len": -1})
+            break
         out.append({"res": list(r), "fwd": f, "bwd": b, "len": n})
     return out
 
@@ -444,8 +474,8 @@ def obs_args(o):
     if r[0] == "ok":
         rt = "RN" if r[1] is None else f"(RY {r[1]})"
     else:
-        rt = f"(RE {r[1]})"
-    return f"{rt} {_nl(o['fwd'])} {_nl(o['bwd'])} {o['len']}"
+        rt = f"(RE {r[1] if r[1] in common._EXN_NAMES else 'OtherError'})"
+    return f"{rt} {_nl(o['fwd'])} {_nl(o['bwd'])} {max(0, o['len'])}"
 
 
 def case_term(sched, obs):
@@ -468,66 +498,707 @@ def cases_file(cases) -> str:
 
 # =========================================================================== generators
 
+def _sim_step(c):
+    """advance a specification cursor the way the model does (used only to aim the generator)"""
+    c._pre()
+    if not c.done and c.fut:
+        c.advance(c.fut[0])
+    else:
+        c.stop()
+
+
 def gen_schedule(rng, kind, steps, ncur, universe=6):
+    """State-aware random schedule: arguments are aimed at the current / next / previous node of some
+    iterator about half of the time, so that chains such as "remove the current node, then its successor,
+    then re-insert it" are frequent."""
     init_n = rng.randrange(0, universe + 1)
     init = rng.sample(range(1, universe + 1), init_n)
-    if rng.random() < 0.15 and init:
+    if kind == "dls" and rng.random() < 0.15 and init:
         init.append(rng.choice(init))      # duplicates in the constructor argument
-    if kind != "dls":
-        init = list(dict.fromkeys(init))
     deps = {}
     if kind != "dls":
         for h in range(2, universe + 1):
             deps[str(h)] = sorted(rng.sample(range(1, h), rng.randrange(0, min(3, h))))
+    sp = Spec(init)
+    tainted = set()       # graph kinds: nodes whose .graph was set by a rejected insert (C01/C06 leak), not in list
     events = []
-    cur_n = 0
-    el = lambda: rng.randrange(1, universe + 1)  # noqa: E731
-    els = lambda: [el() for _ in range(rng.choice([0, 1, 1, 2, 2, 3, 4]))]  # noqa: E731
+
+    def el():
+        if sp.cursors and rng.random() < 0.55:
+            c = rng.choice(sp.cursors)
+            cands = []
+            if c.cur is not None:
+                cands += [c.cur, c.cur]
+                if c.cur in sp.l:
+                    i = sp.l.index(c.cur)
+                    cands += [sp.l[j] for j in (i - 1, i + 1) if 0 <= j < len(sp.l)]
+            if c.fut:
+                cands += c.fut[:2]
+            if cands:
+                return rng.choice(cands)
+        return rng.randrange(1, universe + 1)
+
+    def els():
+        return [el() for _ in range(rng.choice([0, 1, 1, 1, 2, 2, 3, 4]))]
+
     while len(events) < steps:
         r = rng.random()
-        if cur_n < ncur and (cur_n == 0 or r < 0.06):
-            events.append(["new", rng.random() < 0.6])
-            cur_n += 1
-        elif r < 0.45:
-            events.append(["step", rng.randrange(cur_n)])
-        elif r < 0.55:
-            events.append(["remove", el()])
-        elif r < 0.63:
-            events.append(["append", el()])
-        elif r < 0.68:
-            events.append(["extend", els()])
-        elif r < 0.78:
-            events.append(["ins_after", el(), els()])
-        elif r < 0.88:
-            events.append(["ins_before", el(), els()])
+        ncs = len(sp.cursors)
+        if ncs < ncur and (ncs == 0 or r < 0.06):
+            e = ["new", rng.random() < 0.6]
+        elif r < 0.42:
+            e = ["step", rng.randrange(ncs)]
+        elif r < 0.54:
+            e = ["remove", el()]
+        elif r < 0.62:
+            e = ["append", el()]
+        elif r < 0.66:
+            e = ["extend", els()]
+        elif r < 0.76:
+            e = ["ins_after", el(), els()]
+        elif r < 0.86:
+            e = ["ins_before", el(), els()]
+        elif r < 0.90:
+            e = ["get", rng.randrange(-len(sp.l) - 2, len(sp.l) + 2)]
         elif r < 0.92:
-            events.append(["get", rng.randrange(-universe - 1, universe + 1)])
-        elif r < 0.94:
-            events.append(["mem", el()])
+            e = ["mem", el()]
         elif kind == "dls":
-            events.append(["step", rng.randrange(cur_n)])
+            e = ["step", rng.randrange(ncs)]
         else:
             q = rng.random()
             if q < 0.3:
-                events.append(["sort"])
+                e = ["sort"]
             elif q < 0.5:
-                events.append(["remove_many", els()])
+                xs = [x for x in els() if x in sp.l or x not in tainted]
+                e = ["remove_many", xs]
             elif q < 0.75:
-                events.append(["ins_after1", el(), el()])
+                e = ["ins_after1", el(), el()]
             else:
-                events.append(["ins_before1", el(), el()])
+                e = ["ins_before1", el(), el()]
+        # keep the specification in step (only to aim later choices)
+        op = e[0]
+        if op == "new":
+            sp.new_cursor(bool(e[1]))
+        elif op == "step":
+            _sim_step(sp.cursors[e[1]])
+        elif op == "append":
+            sp.append(e[1])
+            tainted.discard(e[1])
+        elif op == "extend":
+            sp.extend(e[1])
+            tainted.difference_update(e[1])
+        elif op in ("ins_after", "ins_before", "ins_after1", "ins_before1"):
+            xs = e[2] if isinstance(e[2], list) else [e[2]]
+            ok = (sp.insert_after if "after" in op else sp.insert_before)(e[1], xs)
+            if ok:
+                tainted.difference_update(xs)
+            else:
+                tainted.update(x for x in xs if x not in sp.l)
+        elif op == "remove":
+            sp.remove(e[1])
+            tainted.discard(e[1])
+        elif op == "remove_many":
+            if all(x in sp.l for x in e[1]):
+                for x in dict.fromkeys(e[1]):
+                    sp.remove(x)
+        elif op == "sort":
+            sp.extend(spec_sort(sp.l, deps))
+        events.append(e)
     return {"kind": kind, "init": init, "deps": deps, "universe": universe, "events": events}
 
 
+def alphabet(elems):
+    """event alphabet of the exhaustive small scopes (two iterators exist from the start)"""
+    evs = [["step", 0], ["step", 1]]
+    evs += [["remove", x] for x in elems]
+    evs += [["append", x] for x in elems]
+    evs += [["ins_after", a, [x]] for a in elems for x in elems]
+    evs += [["ins_before", a, [x]] for a in elems for x in elems]
+    return evs
+
+
+# =========================================================================== recursive iteration (nested graphs)
+#
+# Fixed nesting (node handle -> graphs it carries):  graph 0 holds nodes 1..5; node 1 has GRAPH attributes g1, g2;
+# node 2 has a GRAPHS attribute [g4, g5]; graph 1 holds nodes 11..13 and node 11 has a GRAPH attribute g3.
+# Every node only ever lives in the graph of its pool, so edits never hit the ownership checks of C01.
+REC_POOLS = {0: [1, 2, 3, 4, 5], 1: [11, 12, 13], 2: [21, 22], 3: [31, 32], 4: [41], 5: [51, 52]}
+
+
+def rec_subs(x, fwd):
+    if x == 1:
+        return [1, 2]
+    if x == 11:
+        return [3]
+    if x == 2:
+        return [4, 5] if fwd else [5, 4]
+    return []
+
+
+class RecImpl:
+    def __init__(self, inits):
+        import onnx_ir as ir
+        from onnx_ir.traversal import RecursiveGraphIterator
+        self.RGI = RecursiveGraphIterator
+        self.objs, self.graphs, self.iters = {}, {}, []
+        mk = lambda h, attrs=(): ir.Node("", "If" if attrs else "Op", [], attributes=list(attrs),  # noqa: E731
+                                         num_outputs=1, name=f"n{h}")
+        for gid in (3, 2, 4, 5):
+            for h in REC_POOLS[gid]:
+                self.objs[h] = mk(h)
+        G = lambda gid: ir.Graph([], [], nodes=[self.objs[h] for h in inits[str(gid)]], name=f"g{gid}")  # noqa: E731
+        for gid in (3, 2, 4, 5):
+            self.graphs[gid] = G(gid)
+        self.objs[11] = mk(11, [ir.AttrGraph("body", self.graphs[3])])
+        self.objs[12], self.objs[13] = mk(12), mk(13)
+        self.graphs[1] = G(1)
+        self.objs[1] = mk(1, [ir.AttrGraph("then_branch", self.graphs[1]), ir.AttrGraph("else_branch", self.graphs[2])])
+        self.objs[2] = mk(2, [ir.AttrGraphs("branches", [self.graphs[4], self.graphs[5]])])
+        for h in (3, 4, 5):
+            self.objs[h] = mk(h)
+        self.graphs[0] = G(0)
+        self.back = {id(o): h for h, o in self.objs.items()}
+
+    def do(self, e):
+        O, op = self.objs, e[0]
+        try:
+            if op == "rnew":
+                self.iters.append(self.RGI(self.graphs[0], reverse=not e[1]))
+                return ("ok", None)
+            if op == "fnew":
+                g = self.graphs[e[1]]
+                self.iters.append(iter(g) if e[2] else reversed(g))
+                return ("ok", None)
+            if op == "step":
+                try:
+                    return ("ok", self.back[id(next(self.iters[e[1]]))])
+                except StopIteration:
+                    return ("ok", None)
+            g, sub = self.graphs[e[1]], e[2]
+            if sub == "append":
+                g.append(O[e[3]])
+            elif sub == "remove":
+                g.remove(O[e[3]])
+            elif sub == "ins_after":
+                g.insert_after(O[e[3]], [O[x] for x in e[4]])
+            elif sub == "ins_before":
+                g.insert_before(O[e[3]], [O[x] for x in e[4]])
+            else:
+                raise AssertionError(e)
+            return ("ok", None)
+        except Exception as ex:  # noqa: BLE001
+            return ("raise", common.exn_name(ex))
+
+    def snapshot(self):
+        return {str(k): [self.back[id(n)] for n in g] for k, g in self.graphs.items()}
+
+
+def run_rec(sched):
+    im = RecImpl(sched["inits"])
+    out = []
+    for e in sched["events"]:
+        try:
+            r = _guarded(im.do, e)
+            out.append({"res": list(r), "lists": _guarded(im.snapshot)})
+        except _Hang:
+            out.append({"res": ["raise", "Hang"], "lists": {str(g): [] for g in REC_POOLS}})
+            break
+        except Exception as ex:  # noqa: BLE001
+            out.append({"res": ["raise", "Observer" + common.exn_name(ex)], "lists": {str(g): [] for g in REC_POOLS}})
+            break
+    return out
+
+
+def oracle_rec(sched, obs):
+    specs = {gid: Spec(sched["inits"][str(gid)]) for gid in REC_POOLS}
+    iters = []       # ("flat", cursor) | ("rec", fwd, stack)   stack frames: [gid, cursor, pending gids]
+    bad = []
+    for t, (e, o) in enumerate(zip(sched["events"], obs)):
+        op, res = e[0], tuple(o["res"])
+        if op == "rnew":
+            iters.append(["rec", bool(e[1]), [[0, specs[0].new_cursor(bool(e[1])), []]]])
+        elif op == "fnew":
+            iters.append(["flat", specs[e[1]].new_cursor(bool(e[2]))])
+        elif op == "step":
+            it = iters[e[1]]
+            if res[0] != "ok":
+                bad.append(f"{t}: next() raised {res[1]}")
+                continue
+            x = res[1]
+            if it[0] == "flat":
+                c = it[1]
+                if x is None:
+                    if not c.exhausted():
+                        bad.append(f"{t}: flat iterator stopped, must still yield {c.fut}")
+                    c.stop()
+                elif c.accepts(x):
+                    c.advance(x)
+                else:
+                    bad.append(f"{t}: flat iterator yielded {x}, required {c.fut[:1]}")
+                    c.started, c.opt, c.anch, c.cur = True, [], True, x
+                continue
+            fwd, stack = it[1], it[2]
+            verdict = None
+            while stack:
+                fr = stack[-1]
+                if fr[2]:
+                    gid = fr[2].pop(0)
+                    stack.append([gid, specs[gid].new_cursor(fwd), []])
+                    continue
+                c = fr[1]
+                if x is not None and c.accepts(x):
+                    c.advance(x)
+                    fr[2] = list(rec_subs(x, fwd))
+                    verdict = "ok"
+                    break
+                if c.exhausted():
+                    c.stop()
+                    stack.pop()
+                    continue
+                verdict = f"{t}: recursive iterator yielded {x}; graph {fr[0]} must next yield {c.fut[:1]} (optional {c.opt})"
+                break
+            if verdict is None:
+                verdict = "ok" if x is None else f"{t}: recursive iterator yielded {x} after the traversal was complete"
+            if verdict != "ok":
+                bad.append(verdict)
+                it[2] = []      # give up on this iterator
+            elif x is not None and not any(x in sp.l for sp in specs.values()):
+                bad.append(f"{t}: recursive iterator yielded {x} which is in no graph")
+        else:
+            sp, sub = specs[e[1]], e[2]
+            ok = True
+            if sub == "append":
+                sp.append(e[3])
+            elif sub == "remove":
+                ok = sp.remove(e[3])
+            elif sub == "ins_after":
+                ok = sp.insert_after(e[3], e[4])
+            elif sub == "ins_before":
+                ok = sp.insert_before(e[3], e[4])
+            if ok and res[0] != "ok":
+                bad.append(f"{t}: {e} raised {res[1]} on a valid request")
+            if not ok and res[0] != "raise":
+                bad.append(f"{t}: {e} must be rejected")
+        for gid, sp in specs.items():
+            if o["lists"][str(gid)] != sp.l:
+                bad.append(f"{t}: after {e}: graph {gid} = {o['lists'][str(gid)]}, plain-list specification {sp.l}")
+                sp.l = list(o["lists"][str(gid)])
+    return bad
+
+
+def gen_rec(rng, steps):
+    inits = {str(g): rng.sample(p, rng.randrange(0, len(p) + 1)) for g, p in REC_POOLS.items()}
+    if rng.random() < 0.8:       # usually keep the nesting reachable
+        for g, need in ((0, [1, 2]), (1, [11])):
+            for h in need:
+                if h not in inits[str(g)]:
+                    inits[str(g)].insert(rng.randrange(len(inits[str(g)]) + 1), h)
+    events, n = [], 0
+    while len(events) < steps:
+        r = rng.random()
+        if n < 3 and (n == 0 or r < 0.05):
+            events.append(["rnew", rng.random() < 0.6] if rng.random() < 0.8 else
+                          ["fnew", rng.choice(list(REC_POOLS)), rng.random() < 0.5])
+            n += 1
+        elif r < 0.5:
+            events.append(["step", rng.randrange(n)])
+        else:
+            gid = rng.choice([0, 0, 1, 1, 2, 3, 4, 5])
+            pool = REC_POOLS[gid]
+            q = rng.random()
+            xs = [rng.choice(pool) for _ in range(rng.choice([1, 1, 2]))]
+            if q < 0.3:
+                events.append(["ed", gid, "remove", rng.choice(pool)])
+            elif q < 0.5:
+                events.append(["ed", gid, "append", rng.choice(pool)])
+            elif q < 0.75:
+                events.append(["ed", gid, "ins_after", rng.choice(pool), xs])
+            else:
+                events.append(["ed", gid, "ins_before", rng.choice(pool), xs])
+    return {"kind": "rec", "inits": inits, "events": events}
+
+
+# =========================================================================== running, shrinking, reporting
+
+def run_any(sched):
+    return run_rec(sched) if sched["kind"] == "rec" else run_impl(sched)
+
+
+def check_any(sched):
+    """-> (observations, oracle failures); an exception of the machinery counts as a failure"""
+    obs = run_any(sched)
+    return obs, (oracle_rec(sched, obs) if sched["kind"] == "rec" else oracle(sched, obs))
+
+
+def _valid(sched):
+    """events must refer to iterators created earlier"""
+    n = 0
+    for e in sched["events"]:
+        if e[0] in ("new", "rnew", "fnew"):
+            n += 1
+        elif e[0] == "step" and e[1] >= n:
+            return False
+    return True
+
+
+def shrink(sched):
+    """delta-debugging on the event list while the oracle still fails"""
+    def fails(s):
+        if not _valid(s):
+            return False
+        try:
+            return bool(check_any(s)[1])
+        except Exception:  # noqa: BLE001
+            return False
+    cur = json.loads(json.dumps(sched))
+    # cut the tail after the first failure
+    _, bad = check_any(cur)
+    if bad:
+        t = int(bad[0].split(":")[0])
+        cur["events"] = cur["events"][:t + 1]
+    changed = True
+    while changed:
+        changed = False
+        for i in range(len(cur["events"]) - 1, -1, -1):
+            c2 = dict(cur, events=cur["events"][:i] + cur["events"][i + 1:])
+            # dropping a cursor creation shifts later cursor ids: renumber
+            if cur["events"][i][0] in ("new", "rnew", "fnew"):
+                k = sum(1 for e in cur["events"][:i] if e[0] in ("new", "rnew", "fnew"))
+                ev2 = []
+                for e in c2["events"]:
+                    if e[0] == "step":
+                        if e[1] == k:
+                            continue
+                        e = ["step", e[1] - 1] if e[1] > k else e
+                    ev2.append(e)
+                c2["events"] = ev2
+            if fails(c2):
+                cur, changed = c2, True
+        if cur["kind"] != "rec":
+            for i in range(len(cur["init"]) - 1, -1, -1):
+                c2 = dict(cur, init=cur["init"][:i] + cur["init"][i + 1:])
+                if fails(c2):
+                    cur, changed = c2, True
+        for i, e in enumerate(cur["events"]):
+            for j, a in enumerate(e):
+                if isinstance(a, list) and len(a) > 1:
+                    for k in range(len(a)):
+                        e2 = list(e)
+                        e2[j] = a[:k] + a[k + 1:]
+                        c2 = dict(cur, events=cur["events"][:i] + [e2] + cur["events"][i + 1:])
+                        if fails(c2):
+                            cur, changed = c2, True
+                            break
+    return cur
+
+
+def report(ck, sched, why, seen):
+    obs, bad = check_any(sched)
+    if not bad:
+        return False
+    small = shrink(sched)
+    obs, bad = check_any(small)
+    sig = (small["kind"], tuple(e[0] for e in small["events"]))
+    if sig in seen:
+        return True
+    seen.add(sig)
+    ck.violation({"kind": why, "schedule": small, "failures": bad,
+                  "observed": obs[-1] if obs else None, "broken": ck.broken_items})
+    return True
+
+
+# --------------------------------------------------------------------------- exhaustive small scopes
+
+def tree_files(init, cursors, depth, elems):
+    """One Coq file per first event: the full tree of schedules of `depth` events over `elems`, two iterators
+    created up front, every edge carrying the implementation's observation."""
+    A = alphabet(elems)
+    pre = [["new", f] for f in cursors]
+    files, count = [], 0
+
+    def obs_of(path):
+        s = {"kind": "dls", "init": init, "universe": max(elems), "events": pre + path}
+        return run_impl(s)[-1]
+
+    def coq_ev(e):
+        s = {"kind": "dls", "init": init, "events": [e]}
+        return model_events(s, [{"fwd": []}])[0][0]
+
+    def build(path, d):
+        nonlocal count
+        kids = []
+        for e in A:
+            p2 = path + [e]
+            o = obs_of(p2)
+            count += 1
+            sub = build(p2, d - 1) if d > 1 else "T []"
+            kids.append(f"TE ({coq_ev(e)}) (OB {obs_args(o)}) ({sub})")
+        return "T [" + ";\n".join(kids) + "]"
+
+    for i, e in enumerate(A):
+        o = obs_of([e])
+        count += 1
+        sub = build([e], depth - 1) if depth > 1 else "T []"
+        text = (CASE_HEADER + f"Definition t : tcase := T [TE ({coq_ev(e)}) (OB {obs_args(o)}) ({sub})].\n"
+                f"Eval vm_compute in (tree_fail {_nl(init)} {clist('true' if f else 'false' for f in cursors)} t).\n")
+        files.append((f"tree_{len(init)}_{''.join('f' if f else 'b' for f in cursors)}_{i}", text, e))
+    return files, count
+
+
+def path_of(fail_path, first, elems):
+    """decode a first_fail path (1-based child indices; the root has one child) into events"""
+    A = alphabet(elems)
+    return [first] + [A[k - 1] for k in fail_path[1:]]
+
+
+def exhaustive_oracle(ck, init, cursors, depth, elems, seen, budget_s):
+    import time
+    A = alphabet(elems)
+    pre = [["new", f] for f in cursors]
+    t0 = time.time()
+    n = 0
+    for path in itertools.product(A, repeat=depth):
+        s = {"kind": "dls", "init": init, "universe": max(elems), "events": pre + [list(e) for e in path]}
+        obs = run_impl(s)
+        n += 1
+        if oracle(s, obs):
+            report(ck, s, "oracle-exhaustive", seen)
+            if len(ck.violations) >= 3:
+                break
+        if n % 4096 == 0 and time.time() - t0 > budget_s:
+            ck.notes.append(f"exhaustive oracle scope init={init} depth={depth} stopped after {n} schedules (time budget)")
+            break
+    return n
+
+
+# --------------------------------------------------------------------------- main
+
+def load_corpus():
+    d = os.path.join(common.CORPUS, "C11")
+    out = []
+    if os.path.isdir(d):
+        for fn in sorted(os.listdir(d)):
+            if fn.endswith(".json"):
+                with open(os.path.join(d, fn)) as f:
+                    out.append(json.load(f))
+    return out
+
+
+def coq_compare(ck, cases, tag):
+    """-> list of (sched, obs) whose trace the Coq model does not reproduce"""
+    chunks = [cases[i:i + 25] for i in range(0, len(cases), 25)]
+    texts = [(f"{tag}_{i}", cases_file(ch)) for i, ch in enumerate(chunks)]
+    res = ck.coq_eval_many(texts, timeout=900)
+    out = []
+    for (name, _), (rc, o), ch in zip(texts, res, chunks):
+        if rc != 0:
+            raise RuntimeError(f"case file {name} did not compile:\n{o[-2000:]}")
+        for i in common.parse_nat_list(o):
+            out.append(ch[i])
+    return out
+
+
+def first_divergence(ck, sched, obs):
+    """shortest prefix of the schedule the model does not reproduce (for the report)"""
+    lo, hi = 1, len(sched["events"])
+    while lo < hi:
+        mid = (lo + hi) // 2
+        s2 = dict(sched, events=sched["events"][:mid])
+        if ck.coq_failing(cases_file([(s2, obs[:mid])]), "bisect"):
+            hi = mid
+        else:
+            lo = mid + 1
+    return lo
+
+
 def run(ck) -> None:
+    import logging
+    import time
+    logging.disable(logging.WARNING)
+    ck.trust("Coq 8.16.1 kernel (coqc; vm_compute in case files; no native_compute)",
+             "harness/props/c11.py: schedule generators, the runner of the real DoublyLinkedSet / ir.Graph / "
+             "ir.Function / RecursiveGraphIterator, the Coq literal printer, the translation of Graph.sort / "
+             "Graph.remove(iterable) into list-level edits (spec_sort)",
+             "hand-written model C11/Model.v of _linked_list.py tied by correspondence only (no translation)",
+             "modelled not verified: CPython generator semantics (Fresh/Parked/Done, b.next read at resume time); "
+             "RecursiveGraphIterator is specified in Python only (oracle_rec), not in Coq; "
+             "Graph.sort order (C12) enters as the permutation passed to extend")
+    ck.assumptions += ["values are hashable and never None; one DoublyLinkedSet per schedule (no cross-list moves)",
+                       "CPython generators: a suspended generator resumes after its yield; exhausted generators stay exhausted"]
+    ck.coverage["rule"] = ("non-trivial = a next() call whose iterator is parked on an erased box (tombstone chain), "
+                           "or an insertion/removal adjacent to a parked iterator")
+    ck.prove()
     rng = ck.rng
-    cases = []
-    for i in range(30):
-        s = gen_schedule(rng, ["dls", "graph", "function"][i % 3], 40, 3)
-        o = run_impl(s)
-        bad = oracle(s, o)
+    seen: set = set()
+    t_start = time.time()
+
+    # ---- 1. corpus + random schedules: implementation + oracle, then the Coq model on the same traces
+    scheds = [s for s in load_corpus()]
+    n_rand = 70 if not ck.thorough else 1500
+    for i in range(n_rand):
+        for kind in ("dls", "graph", "function"):
+            if i % 5 == 0:
+                scheds.append(gen_schedule(rng, kind, rng.choice([8, 15, 25]), 2, universe=3))
+            else:
+                scheds.append(gen_schedule(rng, kind, rng.choice([40, 60, 80]), rng.choice([2, 3, 4]),
+                                           universe=rng.choice([4, 6, 7])))
+    for i in range(n_rand * 2):
+        scheds.append(gen_rec(rng, rng.choice([30, 60])))
+    cases, oracle_failed = [], []
+    for s in scheds:
+        obs, bad = check_any(s)
+        ck.count(len(s["events"]))
+        for e in s["events"]:
+            ck.hist("ops", (s["kind"] + ":" if s["kind"] == "rec" else "") + (e[2] if e[0] == "ed" else e[0]))
+        for o in obs:
+            ck.hist("results", o["res"][0] if o["res"][0] == "ok" else o["res"][1])
         if bad:
-            print("ORACLE", json.dumps(s), bad[:3])
-        cases.append((s, o))
-    txt = cases_file(cases)
-    print(ck.coq_failing(txt, "cases0"))
+            oracle_failed.append(s)
+        if s["kind"] != "rec":
+            cases.append((s, obs))
+        _coverage(ck, s, obs)
+    ck.coverage["traces_validated_against_impl"] = len(cases)
+    for s in scheds[:2] + [x for x in scheds if x["kind"] == "rec"][:1]:
+        ck.sample({"kind": s["kind"], "init": s.get("init", s.get("inits")), "events": s["events"][:12]})
+    mism = []
+    try:
+        mism = coq_compare(ck, cases, "cases")
+    except RuntimeError as e:
+        ck.broken("correspondence:case-files", str(e))
+    for s, obs in mism[:3]:
+        k = first_divergence(ck, s, obs)
+        ck.broken("correspondence:DoublyLinkedSet-model",
+                  json.dumps({"schedule": dict(s, events=s["events"][:k]), "impl_observation": obs[k - 1]}))
+
+    # ---- 2. exhaustive small scopes: Coq model on the tree of all schedules; oracle one level deeper
+    depth = 3 if not ck.thorough else 4
+    elems = [1, 2, 3]
+    tree_mism = []
+    for init, cursors in (([1, 2, 3], [True, False]), ([1, 2], [True, True]), ([2, 1, 3], [False, False])):
+        files, n = tree_files(init, cursors, depth, elems)
+        ck.count(n)
+        ck.hist("exhaustive_scopes", f"coq-tree init={init} cursors={cursors} depth={depth}", n)
+        try:
+            res = ck.coq_eval_many([(name, text) for name, text, _ in files], timeout=1500)
+        except Exception as e:  # noqa: BLE001
+            ck.broken("correspondence:tree-files", str(e))
+            continue
+        for (name, _, first), (rc, o) in zip(files, res):
+            if rc != 0:
+                ck.broken("correspondence:tree-files", f"{name} did not compile: {o[-1500:]}")
+                continue
+            p = common.parse_nat_list(o)
+            if p:
+                tree_mism.append({"kind": "dls", "init": init, "universe": 3,
+                                  "events": [["new", f] for f in cursors] + path_of(p, first, elems)})
+    for s in tree_mism[:3]:
+        ck.broken("correspondence:DoublyLinkedSet-model(exhaustive)", json.dumps(s))
+    scopes = [([1, 2, 3], [True, False])]
+    if ck.thorough:
+        scopes += [([1, 2], [True, True]), ([1, 2, 3], [False, False])]
+    for init, cursors in scopes:
+        d = depth + 1
+        n = exhaustive_oracle(ck, init, cursors, d, elems, seen, 45 if not ck.thorough else 600)
+        ck.count(n)
+        ck.hist("exhaustive_scopes", f"oracle init={init} cursors={cursors} depth={d}", n)
+
+    # ---- 3. known findings (none recorded for C11), oracle failures -> violations
+    for k in ck._known:
+        if k.get("status") == "known":
+            obs, bad = check_any(k["witness"])
+            if bad:
+                ck.known_finding(k["key"], k["what"])
+            else:
+                ck.broken(f"known-finding-stale:{k['key']}", "the recorded witness no longer fails")
+    for s in oracle_failed[:6]:
+        report(ck, s, "oracle", seen)
+
+    # ---- 4. something is broken and no failing input yet: search
+    if ck.broken_items and not ck.violations:
+        search(ck, [s for s, _ in mism] + tree_mism, seen)
+    ck.coverage["wall_correspondence_s"] = round(time.time() - t_start, 1)
+
+
+def _coverage(ck, s, obs):
+    """count the schedules that reach the non-trivial rules (tombstone chains, edits next to a cursor)"""
+    if s["kind"] == "rec":
+        if any(e[0] == "ed" for e in s["events"]) and sum(1 for e in s["events"] if e[0] == "step") > 3:
+            ck.nontriv(s)
+        return
+    sp = Spec(s["init"])
+    hit = False
+    for e in s["events"]:
+        op = e[0]
+        if op == "new":
+            sp.new_cursor(bool(e[1]))
+        elif op == "step":
+            c = sp.cursors[e[1]]
+            if c.started and not c.done and not c.anch:
+                hit = True
+                ck.hist("rules", "step-from-tombstone")
+            _sim_step(c)
+        elif op == "remove":
+            if any(c.started and c.anch and c.cur == e[1] for c in sp.cursors):
+                ck.hist("rules", "remove-current")
+                hit = True
+            sp.remove(e[1])
+        elif op == "append":
+            sp.append(e[1])
+        elif op == "extend":
+            sp.extend(e[1])
+        elif op in ("ins_after", "ins_before", "ins_after1", "ins_before1"):
+            xs = e[2] if isinstance(e[2], list) else [e[2]]
+            if any(c.started and not c.done and (c.cur == e[1] or c.cur in xs) for c in sp.cursors):
+                ck.hist("rules", "insert-next-to-or-move-current")
+                hit = True
+            (sp.insert_after if "after" in op else sp.insert_before)(e[1], xs)
+        elif op == "remove_many":
+            if all(x in sp.l for x in e[1]):
+                for x in dict.fromkeys(e[1]):
+                    sp.remove(x)
+        elif op == "sort":
+            sp.extend(spec_sort(sp.l, s.get("deps") or {}))
+            if any(c.started and not c.done for c in sp.cursors):
+                ck.hist("rules", "sort-under-iterator")
+    if hit:
+        ck.nontriv(s)
+
+
+def search(ck, diverging, seen) -> None:
+    """Violation search: the diverging schedules and their prefixes, then the same with every iterator drained,
+    then fresh schedules, all through the oracle on the implementation."""
+    import time
+    t0 = time.time()
+    budget = 60 if not ck.thorough else 1200
+    for s in diverging:
+        for k in range(1, len(s["events"]) + 1):
+            if report(ck, dict(s, events=s["events"][:k]), "oracle-on-diverging-schedule", seen):
+                return
+    for s in diverging:
+        ncur = sum(1 for e in s["events"] if e[0] == "new")
+        ext = dict(s, events=s["events"] + [["step", i] for _ in range(8) for i in range(ncur)])
+        if report(ck, ext, "oracle-on-diverging-schedule-drained", seen):
+            return
+    rng = ck.rng
+    i = 0
+    while time.time() - t0 < budget:
+        i += 1
+        if i % 4 == 0:
+            s = gen_rec(rng, 50)
+        else:
+            s = gen_schedule(rng, rng.choice(["dls", "graph", "function"]), rng.choice([20, 50, 90]),
+                             rng.choice([2, 3, 4]), universe=rng.choice([3, 4, 6]))
+        ck.count(len(s["events"]))
+        if report(ck, s, "oracle-after-broken-obligation", seen):
+            return
+
+
+def replay(rp: dict) -> int:
+    s = rp.get("schedule")
+    if s is None:
+        print("replay names a broken obligation/correspondence, no concrete input:",
+              json.dumps(rp.get("broken"), indent=1)[:3000])
+        return 1
+    obs, bad = check_any(s)
+    print(json.dumps({"schedule": s, "failures": bad, "observed": obs[-1] if obs else None}, indent=1))
+    return 1 if bad else 0
